@@ -237,7 +237,11 @@ pub fn judge(property: &str, reported: &[Reported]) -> Verdict {
 }
 
 pub fn write_evidence(property: &str, tier: &str, seed: u64, level: &str, coverage: Value, assumptions: Vec<String>, wall_s: f64, violations: usize) {
-    let dir = verif_dir().join("evidence");
+    // runs against a deliberately broken tree (self-test, seeded changes) keep their evidence out of /verif/evidence
+    let dir = match std::env::var("VERIF_EVIDENCE_DIR") {
+        Ok(d) => PathBuf::from(d),
+        Err(_) => verif_dir().join("evidence"),
+    };
     let _ = std::fs::create_dir_all(&dir);
     let v = json!({
         "property_id": property,
